@@ -276,6 +276,13 @@ func (r *ResolverGenerator) jsonResolverMethods() (m []*codegen.Method) {
 		vocabHttps.Scheme = "https"
 		vocabHttp := vocabHttps
 		vocabHttp.Scheme = "http"
+		// The alias is looked for under the vocabulary's own URI first:
+		// that is where the type's deserializer reads it, and the two
+		// entries differ in a document that names the vocabulary twice.
+		vocabOwn, vocabOther := vocabHttps, vocabHttp
+		if t.vocabURI.Scheme == "http" {
+			vocabOwn, vocabOther = vocabHttp, vocabHttps
+		}
 		// Determine if we've already generated the code for fetching
 		// the alias for this vocabulary.
 		if _, ok := aliasToId[vocabHttps.String()]; !ok {
@@ -287,14 +294,14 @@ func (r *ResolverGenerator) jsonResolverMethods() (m []*codegen.Method) {
 					jen.Id(vocabId),
 					jen.Id("ok"),
 				).Op(":=").Id("aliasMap").Index(
-					jen.Lit(vocabHttps.String()),
+					jen.Lit(vocabOwn.String()),
 				),
 			).Line().Add(
 				jen.If(
 					jen.Op("!").Id("ok"),
 				).Block(
 					jen.Id(vocabId).Op("=").Id("aliasMap").Index(
-						jen.Lit(vocabHttp.String()),
+						jen.Lit(vocabOther.String()),
 					),
 				),
 			).Line().Add(
